@@ -110,20 +110,24 @@ def run_case(c):
                 R.append(q)
     elif k == "chord":
         root, sh = txt(c["root"]), c["sh"]
-        rec = call("from_chord_shorthand", {"root": list(root), "sh": sh}, lambda: proj(NoteContainer().from_chord_shorthand(root + sh)))
-        rec["obs"] = rec["out"] if rec["ok"] else []
-        rec["out"] = 0
-        R.append(rec)
+        for alias in ("from_chord_shorthand", "from_chord"):
+            rec = call("from_chord_shorthand", {"root": list(root), "sh": sh, "via": alias}, lambda: proj(getattr(NoteContainer(), alias)(root + sh)))
+            rec["obs"] = rec["out"] if rec["ok"] else []
+            rec["out"] = 0
+            R.append(rec)
     elif k == "interval":
         n, sh = txt(c["n"]), txt(c["sh"])
-        rec = call("from_interval_shorthand", {"n": list(n), "sh": list(sh)}, lambda: proj(NoteContainer().from_interval_shorthand(n, sh)))
-        rec["obs"] = rec["out"] if rec["ok"] else []
-        rec["out"] = 0
-        R.append(rec)
+        for alias in ("from_interval_shorthand", "from_interval"):
+            rec = call("from_interval_shorthand", {"n": list(n), "sh": list(sh), "via": alias}, lambda: proj(getattr(NoteContainer(), alias)(n, sh)))
+            rec["obs"] = rec["out"] if rec["ok"] else []
+            rec["out"] = 0
+            R.append(rec)
     elif k == "numeral":
         key, prog = txt(c["k"]), txt(c["prog"])
-        rec = call("from_progression_shorthand", {"k": list(key), "prog": list(prog)}, lambda: proj(NoteContainer().from_progression_shorthand(prog, key)))
-        rec["obs"] = rec["out"] if rec["ok"] else []
-        rec["out"] = 0
-        R.append(rec)
+        for alias, kw in (("from_progression_shorthand", False), ("from_progression", False), ("from_progression", True)):
+            rec = call("from_progression_shorthand", {"k": list(key), "prog": list(prog), "via": alias, "kw": kw},
+                       lambda: proj(getattr(NoteContainer(), alias)(prog, key=key) if kw else getattr(NoteContainer(), alias)(prog, key)))
+            rec["obs"] = rec["out"] if rec["ok"] else []
+            rec["out"] = 0
+            R.append(rec)
     return R
